@@ -1,5 +1,6 @@
 import Replicon.Proofs.Visibility
 import Replicon.Proofs.Sync
+import Replicon.Proofs.ClientVals
 /-
 C08 — Hidden entities' data never reaches a client.
 
@@ -105,5 +106,28 @@ theorem C08_history_gain_lose (s0 : Srv.Server) (hw : s0.world = []) (hc0 : s0.c
   · intro hk hv
     obtain ⟨u, hu, he⟩ := Srv.frame_gained_whole _ parts invp (c, cl) hm ha e hk hv
     exact ⟨_, u, Joint.frame_out_of_client _ ticked ms parts hr hc c cl hm ha, hu, he⟩
+
+/-- **"Gaining visibility delivers the whole entity" — with its values, over ALL histories, across
+both models** (`Proofs/ClientVals.lean`; the statement of `C07_history_complete_state_values`): an
+entity the server starts to track for a client in a frame — in particular one that was hidden
+from the client and is shown again, which the client had been told to despawn — is sent in an
+update message of that frame, and the client model applying it has exactly the server's current
+value for every plain replicated component of the entity. -/
+theorem C08_history_gained_entity_values (s0 : Srv.Server) (hw : s0.world = []) (hc0 : s0.clients = []) (hb : s0.removalBuf = [])
+    (hrates : (s0.rates.map (·.1)).Nodup)
+    (ops : List Joint.Op) (hl : Joint.Legal2 { srv := s0 } ops) (ticked : Bool) (ms : Nat)
+    (hr : (Joint.run { srv := s0 } ops).1.srv.running = true)
+    (z : Nat × Srv.Cli) (hz : z ∈ (Joint.run { srv := s0 } ops).1.srv.clients)
+    (e : Nat)
+    (hnew : e ∉ Srv.keys (Srv.runCl1 (Srv.preRun (Joint.run { srv := s0 } ops).1.srv ticked ms) (Srv.preG (Joint.run { srv := s0 } ops).1.srv ms z.2)))
+    (hbump : e ∈ Srv.runBumped (Srv.preRun (Joint.run { srv := s0 } ops).1.srv ticked ms)
+      ((Srv.preRun (Joint.run { srv := s0 } ops).1.srv ticked ms).now + 1) (Srv.preG (Joint.run { srv := s0 } ops).1.srv ms z.2))
+    (ent : Srv.SEnt) (hwld : (e, ent) ∈ (Joint.run { srv := s0 } ops).1.srv.world) :
+    ∃ u, (Srv.runClient (Srv.preRun (Joint.run { srv := s0 } ops).1.srv ticked ms)
+        ((Srv.preRun (Joint.run { srv := s0 } ops).1.srv ticked ms).now + 1) (Srv.preG (Joint.run { srv := s0 } ops).1.srv ms z.2)).2.update = some u ∧
+      ∀ k r comp, (k, r, comp) ∈ Srv.present (Joint.run { srv := s0 } ops).1.srv ent →
+        (Joint.replay ((Joint.runLog { srv := s0 } (fun _ => []) ops).2 z.1)).entityComps.contains k = false →
+        Cli.valOn (Cli.applyUpdate (Joint.replay ((Joint.runLog { srv := s0 } (fun _ => []) ops).2 z.1)) u) e k = some comp.val :=
+  Joint.history_new_entity_values s0 hw hc0 hb hrates ops hl ticked ms hr z hz e hnew hbump ent hwld
 
 end Replicon.C08
